@@ -18,8 +18,9 @@ ENGINE = {'name': 'pp',
          'digits, separators; v2: signature bit, version/command, family/transport, length +-k, truncation); a hand-written corpus of 85 lines '
          'probing Sscanf and net.ParseIP (signs, leading zeros, tabs, missing blanks, 107/108/109-byte lines, IPv4-mapped and compressed IPv6 '
          'forms, zones); library writers on arbitrary field values (nil IPs, mixed families, ports above 65535, unix names above 108 bytes, '
-         'foreign net.Addr types). allow list: 11 fixed + N/8 random lists over 19 CIDRs (IPv4, IPv6, IPv4-mapped, /0, duplicates, overlaps, '
-         'non-canonical bases) x 23 peers (TCP, UDP, unix) through Provision/tidyRules/newConn. end to end: Handler.Handle over net.Pipe with '
+         'foreign net.Addr types). allow list: 17 fixed + N/8 random lists over 19 CIDRs (IPv4, IPv6, IPv4-mapped, /0, duplicates, overlaps, '
+         'non-canonical bases) and 8 BARE addresses (IPv4, IPv6, IPv4-mapped; reference reading: single-host range /32 or /128) x 29 peers (incl. the '
+         'bare hosts and their neighbours) (TCP, UDP, unix) through Provision/tidyRules/newConn. end to end: Handler.Handle over net.Pipe with '
          'chosen peer addresses; every base header with no list / a list containing the peer / a list not containing it, N random (header, '
          'list, peer, payload 0..3000 bytes; thorough tier: also 4096/5000/9000) combinations, 1/8 of them with a damaged header; every stream is run whole, header|payload, '
          'split at 3 random positions or (base headers, every 16th random one) at EVERY header position, byte by byte, and with 1/12/13/16/'
